@@ -53,6 +53,8 @@ PLAN = {
     'nav-thorough': [('full', 3), ('core', 5), ('search', 4)],
     'fault-quick': [('full', 2), ('core', 2)],
     'fault-thorough': [('full', 2), ('core', 3)],
+    'hist-quick': [('full', 2), ('twin', 2)],
+    'hist-thorough': [('full', 2), ('core', 3), ('twin', 3)],
     'small-quick': [('full', 2), ('core', 3)],
     'small-thorough': [('full', 3), ('core', 4)],
 }
